@@ -26,6 +26,62 @@ class OpaqueStr(str):
         return str.__new__(cls, s)
 
 
+class FStr(SStr):
+    """A symbolic string that remembers how it was built: parts = [('lit', str) | ('int', value, spec) | ('str', SStr)]"""
+
+    def __init__(self, z, parts):
+        super().__init__(z)
+        self.parts = parts
+
+    def __add__(self, o):
+        if isinstance(o, (str, SStr)):
+            return concat([self, o])
+        return NotImplemented
+
+    def __radd__(self, o):
+        if isinstance(o, (str, SStr)):
+            return concat([o, self])
+        return NotImplemented
+
+
+def parts_of(x):
+    if isinstance(x, FStr):
+        return list(x.parts)
+    if isinstance(x, SStr):
+        return [('str', x)]
+    if isinstance(x, str):
+        return [('lit', x)] if x else []
+    raise Unsupported(f'string part of type {type(x).__name__}')
+
+
+def concat_parts(parts):
+    parts = _merge(parts)
+    if all(p[0] == 'lit' for p in parts):
+        return ''.join(p[1] for p in parts)
+    zs = []
+    for p in parts:
+        if p[0] == 'lit':
+            zs.append(z3.StringVal(p[1]))
+        elif p[0] == 'int':
+            zs.append(p[3])
+        else:
+            zs.append(p[1].z)
+    z = z3.Concat(*zs) if len(zs) > 1 else zs[0]
+    return FStr(z3.simplify(z), parts)
+
+
+def _merge(parts):
+    out = []
+    for p in parts:
+        if p[0] == 'lit' and out and out[-1][0] == 'lit':
+            out[-1] = ('lit', out[-1][1] + p[1])
+        elif p[0] == 'lit' and not p[1]:
+            continue
+        else:
+            out.append(p)
+    return out
+
+
 DIGIT = z3.Range('0', '9')
 NZDIGIT = z3.Range('1', '9')
 NAT_RE = z3.Union(z3.Re('0'), z3.Concat(NZDIGIT, z3.Star(DIGIT)))
@@ -47,39 +103,11 @@ def format_int(v: SInt, spec: str):
     plus, zero, width = m.group(1) == '+', m.group(2) == '0', int(m.group(3) or 0)
     c = core.ctx()
     s = c.fresh_str('fmt')
-    z = v.z
-    absz = z3.If(z >= 0, z, -z)
-    digits = c.fresh_str('digits')       # decimal digits of |v| without padding
-    digits = digits.z
-    ndig = z3.Length(digits)
-    c.assume(z3.InRe(digits, NAT_RE))
-    # length of the digit string is determined by the magnitude (for |v| < 10^6: enough for the uses here)
-    lens = z3.If(absz < 10, 1, z3.If(absz < 100, 2, z3.If(absz < 1000, 3, z3.If(absz < 10000, 4,
-           z3.If(absz < 100000, 5, z3.If(absz < 1000000, 6, ndig))))))
-    c.assume(ndig == lens)
-    c.assume(z3.Implies(absz >= 1000000, ndig >= 7))
-    dec = _decode_fn()
-    c.assume(dec(digits) == absz)
-    # single digit strings decode literally (lets the solver relate '0'..'9')
-    c.assume(z3.Implies(absz < 10, digits == z3.SubString(z3.StringVal('0123456789'), absz, 1)))
-    sign = z3.If(z < 0, z3.StringVal('-'), z3.StringVal('+' if plus else ''))
-    if zero and width:
-        padlen = z3.If(width - z3.Length(sign) - ndig > 0, width - z3.Length(sign) - ndig, 0)
-        pad = c.fresh_str('pad').z
-        c.assume(z3.InRe(pad, z3.Star(z3.Re('0'))))
-        c.assume(z3.Length(pad) == padlen)
-        body = z3.Concat(sign, pad, digits)
-    elif width:
-        padlen = z3.If(width - z3.Length(sign) - ndig > 0, width - z3.Length(sign) - ndig, 0)
-        pad = c.fresh_str('pad').z
-        c.assume(z3.InRe(pad, z3.Star(z3.Re(' '))))
-        c.assume(z3.Length(pad) == padlen)
-        body = z3.Concat(pad, sign, digits)
-    else:
-        body = z3.Concat(sign, digits)
-    c.assume(s.z == body)
-    c.assumptions_used.add('A-FMT-INT: integer formatting modelled by language/length/decode facts')
-    return s
+    # The z3 term is an unconstrained fresh string: everything the properties need about a formatted integer
+    # (sign character, number of digits, value) is carried by ``parts`` and decided on the *skeleton* of the
+    # string (lib/timelib.skeleton) -- character-level facts in z3 made every query a slow sequence query.
+    c.assumptions_used.add('A-FMT-INT: formatted integers are tracked structurally (sign, digit count, value), not as z3 strings')
+    return FStr(s.z, [('int', v, spec, s.z)])
 
 
 def format_value(interp, val, spec, conversion=-1):
@@ -137,8 +165,10 @@ def concat(parts):
         return OpaqueStr('<msg>')
     if all(isinstance(p, str) for p in parts):
         return ''.join(parts)
-    z = [core.zstr(p) for p in parts]
-    return mk_str(z3.Concat(*z)) if len(z) > 1 else mk_str(z[0])
+    flat = []
+    for p in parts:
+        flat.extend(parts_of(p))
+    return concat_parts(flat)
 
 
 def percent_format(fmt, args):
